@@ -231,7 +231,7 @@ def run(tier, seed, replay=None):
     if replay:
         cases = [json.load(open(replay))["case"]]; ncorpus = 0
     else:
-        cases += gen_cases(rng, 1500 if tier == "quick" else 22000)
+        cases += gen_cases(rng, 1500 if tier == "quick" else 18000)
     terms, metas, driver_errors = [], [], []
     for c in cases:
         try:
